@@ -122,6 +122,9 @@ def explore(res, rng, n):
         rho = rng.choice([0.0, 0.3, -0.4])
         flat.append(('linear-correlated-normal', [stats.norm(1, 2), stats.norm(0, 1)], [[1.0, rho], [rho, 1.0]],
                      (lambda X: 6.0 - X[0] - 2 * X[1])))
+    # the origin already in the failure set: FORM's beta is negative and SORM must keep its sign
+    flat.append(('linear-origin-failed', [stats.norm(), stats.norm()], [[1.0, 0.0], [0.0, 1.0]], (lambda X: -1.0 - X[0] - X[1])))
+    flat.append(('linear-origin-failed-correlated', [stats.norm(1, 2), stats.norm(0, 1)], [[1.0, 0.3], [0.3, 1.0]], (lambda X: -2.0 - X[0] + 2 * X[1])))
     s = 0.5
     flat.append(('lognormal-product', [stats.lognorm(s), stats.lognorm(s)], [[1.0, 0.0], [0.0, 1.0]],
                  (lambda X: 2.0 - math.log(X[0]) - math.log(X[1]))))
@@ -133,7 +136,11 @@ def explore(res, rng, n):
         case = {'problem': name, 'corr': corr}
         try:
             bf, pff, _, _ = rrm.coptFORM(2, g, dists, corr)
-            outs = {nm: f(2, g, None, dists, corr)[1] for nm, f in (('breitung', rrm.breitungSORM), ('tvedt', rrm.tvedtSORM), ('hrack', rrm.hrackSORM))}
+            full = {nm: f(2, g, None, dists, corr) for nm, f in (('breitung', rrm.breitungSORM), ('tvedt', rrm.tvedtSORM), ('hrack', rrm.hrackSORM))}
+            outs = {nm: v[1] for nm, v in full.items()}
+            for nm, v in full.items():
+                if abs(v[0] - bf) > 1e-6 * (1 + abs(bf)):
+                    fail(res, f'{nm}: beta is not that of FORM', case, {'sorm_beta': float(v[0]), 'form_beta': float(bf)})
         except Exception as e:  # noqa
             fail(res, 'SORM raised on a flat limit state', case, repr(e)[:200])
             continue
@@ -146,7 +153,7 @@ def explore(res, rng, n):
 def run(tier, seed):
     res = core.Result(PID, tier, seed)
     res.rule = ('closing formulas on random (beta, curvature vector) incl. all-zero and negative curvatures; rotated paraboloids in standard '
-                'normal space (dimension 2-4); flat limit states (correlated normals, lognormal product / ratio); distinct by case')
+                'normal space (dimension 2-4); flat limit states (correlated normals, origin in the failure set, lognormal product / ratio); distinct by case')
     core.prove(res, PID, MODULES, clean=(tier == 'thorough'))
     n = 6 if tier == 'quick' else 120
     explore(res, random.Random(seed), n)
